@@ -11,7 +11,7 @@ REQUIRED_THEOREMS = [
     'OpusProps.C09.plc_duration', 'OpusProps.C09.plc_not_multiple', 'OpusProps.C09.plc_chunking',
     'OpusProps.C09.fec_degrades_to_plc', 'OpusProps.C09.fec_call_shape', 'OpusProps.C09.fec_frame_layers',
     'OpusProps.C09.lbrr_flag_position', 'OpusProps.C09.plc_gains_contract', 'OpusProps.C09.plc_gains_first_frame',
-    'OpusProps.C09.loss_duration_saturates', 'OpusProps.C09.plc_kind',
+    'OpusProps.C09.loss_duration_saturates', 'OpusProps.C09.plc_kind', 'OpusProps.C09.lbrr_flag_is_has_lbrr',
 ]
 RULE = ('loss patterns x call shapes on real encoder output: for 16 configurations (SILK NB/MB/WB 10-60 ms, hybrid SWB/FB 10/20 ms, '
         'CELT 2.5-20 ms, automatic mode switching, stereo FEC streams whose stereo image keeps changing, streams switched SILK -> CELT '
@@ -23,6 +23,9 @@ RULE = ('loss patterns x call shapes on real encoder output: for 16 configuratio
         'traced concealed frame, opus_packet_has_lbrr of every packet and the CELT loss_duration counter are compared with their '
         'models; a case is distinct by (operation, outcome class)')
 NOT_COVERED = [
+    'clause "received packets still decode with the encoder\'s final range whatever was lost before": no theorem here — the symbol-level '
+    'lockstep is C02/C08 (silk_syms_roundtrip, opus_frame_lockstep_silk); on the implementation it is searched by C09\'s `range` '
+    'statistic (every received packet of every loss pattern, incl. mode switches inside the loss window)',
     'the audio clauses — level bound of the concealed signal, decay under sustained loss, re-convergence, FEC vs. PLC accuracy — '
     'are float DSP: not modelled, SEARCHED on the implementation only (twin decoders, calibrated thresholds)',
     'CELT pitch / noise PLC interior (the choice between them — loss_duration >= 40, start band, skip_plc — IS modelled and proved)',
